@@ -139,6 +139,16 @@ def table_rule(ctx):
         order = [n for n in fv.nodes if n in (c1[0], c2[0])]
         ctx.check("C08.T", "build_table:order", order and order[0] is c1[0], "count() precedes merge()",
                   "merge() runs before count()", line_of(c2[0]))
+    # the table is rebuilt on every run: none of these calls is conditional (no "reuse an existing table" shortcut)
+    conditional = [c for c in fv.nodes if c.get("k") in ("call", "mcall") and cname(c).startswith("counter::CountComputer::")
+                   and fv.guards(c, with_asserts=True)]
+    early = [r for r in fv.nodes if r.get("k") == "ret"]
+    ctx.check("C08.T", "build_table:unconditional", not conditional and not early,
+              "count() and merge() run unconditionally on every build_table()",
+              "build_table() runs the counter only under %s (or returns early): an existing kmers.counts of an earlier "
+              "run (other input, other k) would be reused"
+              % ([show(fv.term(g)) for g, p in fv.guards(conditional[0])] if conditional else "an early return"),
+              line_of(conditional[0]) if conditional else (line_of(early[0]) if early else None))
     acgt = fv.calls_to("counter::CountComputer::set_acgt_output")
     ctx.check("C08.T", "build_table:numeric_keys", not acgt, "ACGT output never enabled (loader parses numeric keys)",
               "build_table enables ACGT output but compute_coverages parses numeric k-mers", line_of(acgt[0]) if acgt else None)
